@@ -166,7 +166,7 @@ def invalid_env_step(rng, tr: Tracker):
 def gen_session(rng: random.Random, spec, *, p_invalid=0.0, p_query=0.0, p_reset=0.0,
                 p_obs=0.0, p_snapshot=1.0, start_observers=(), max_events=60,
                 snapshot_around_invalid=False, stop_early=0.15, obs_kinds=(0, 1, 2, 3, 4, 5),
-                env_mode=False, p_cog=0.2, p_sub=0.12):
+                env_mode=False, p_cog=0.2, p_sub=0.12, p_leave=0.0):
     """Returns (events, stats)."""
     tr = Tracker(spec)
     events = []
@@ -314,6 +314,13 @@ def gen_session(rng: random.Random, spec, *, p_invalid=0.0, p_query=0.0, p_reset
         ev = valid_request(rng, tr)
         if env_mode:
             ev = to_env_event(rng, ev)
+        elif p_leave and rng.random() < p_leave:
+            leavers = [i for i in subs if kinds[i] in (4, 5) and subs.count(i) == 1]
+            if leavers and len(subs) >= 2:
+                who = rng.choice(leavers)
+                ev = [12] + list(ev[1:4]) + [who]
+                subs.remove(who)
+                stats["self_unsubscribe"] = stats.get("self_unsubscribe", 0) + 1
         events.append(ev)
         n_accepted += 1
         stats["dispatch"] += 1
